@@ -60,6 +60,10 @@ CHECKS = {
  'C14': ('fault_enumeration', 'runtime monitor: fault enumeration (a poisoned record at every position x every clause placement; every static mistake; an invalid byte at every offset; every subset of warning anomalies) with the reference error predictor and a per-anomaly warning predictor as oracles; probe-writer trace for "no record written before a parsing error"; JS leg',
          'Every fault position of the enumerated scenario families is executed on the real engine; the error class, the named record / field and the exact warning set are compared with prediction; held on the scenarios enumerated.',
          'Trusted: rv/model/refsem.py error prediction, rv/model/refcsv.py reader for the warning predictor. Error texts are never compared.', 'DESIGN.md#c14'),
+
+ 'C15': ('fault_enumeration', 'runtime monitor: fault injection at every point (output stream raising EPIPE at write k, user writer returning False at write k, invalid byte at every offset, every error outcome of query_csv / query_sqlite_to_csv) with online trace automata (writer protocol, no stream write / input read after the fault), prefix oracle on delivered bytes, descriptor tracking (open() of the front-end modules wrapped, /proc/self/fd, ResourceWarning)',
+         'Every write index of 15 query shapes is made to fail, every byte offset of a UTF-8 file is corrupted, and every outcome class of the file front-ends is driven while all opened file objects are tracked; held on the fault points enumerated.',
+         'Trusted: the injected sinks model a consumer that went away (EPIPE on every write from k on). "Promptly" = no further stream write after a failed data write, at most one further input read.', 'DESIGN.md#c15'),
 }
 
 NOT_YET = 'check not registered yet (machinery under construction; see DESIGN.md section 3a build order)'
